@@ -430,7 +430,15 @@ func lengthClass(v ssa.Value, depth int) string {
 	switch x := v.(type) {
 	case *ssa.Call:
 		if arg, ok := lenArg(x); ok {
-			return sliceClass(arg.Type())
+			cls := sliceClass(arg.Type())
+			if cls == "children" {
+				// only an operand list that check() has seen is bounded by the operand limit: the children field of a tree
+				// node — not any other []*astNode (the infix parser's output stack has no bound)
+				if _, isField := loadOfField(arg, "astNode", "children"); !isField {
+					return ""
+				}
+			}
+			return cls
 		}
 	case *ssa.BinOp:
 		if x.Op == token.ADD || x.Op == token.SUB {
@@ -538,7 +546,13 @@ func ruleWidth(w *World, r *Report, kc, kn int64) {
 			case "nodes":
 				r.Check(kn >= 0 && kn <= max, rule, pos, w.Name(fn), what, fmt.Sprintf("program length/index: check (and the final length test, R-GROW) admit at most %d <= %d", kn, max), fmt.Sprintf("check admits up to %d nodes but the length/index is narrowed to a type holding at most %d", kn, max))
 			default:
-				r.Undecided(rule, pos, w.Name(fn), what, "narrowing conversion of a quantity that is not recognisably a children count or a program length")
+				// a length (or a length plus/minus a constant) of something no enforced limit bounds — a token list, a
+				// parser stack — is narrowed: it wraps once the input is long enough
+				if lenDerived(cv.X, 0) {
+					r.Fail(rule, pos, w.Name(fn), what, fmt.Sprintf("the length of a list that no limit bounds is narrowed to a type holding at most %d: it wraps for a long enough input", max))
+				} else {
+					r.Undecided(rule, pos, w.Name(fn), what, "narrowing conversion of a quantity that is not recognisably a children count or a program length")
+				}
 			}
 		})
 	}
@@ -997,4 +1011,29 @@ func ruleCheckAll(w *World, r *Report) {
 		}
 	}
 	r.Check(whole, rule, w.InstrPos(rec), name, "end of the loop over the children", "success is reported only after every child was checked", "check can leave the loop over the children early with a success result")
+}
+
+
+// lenDerived: v is len(x), possibly plus/minus a constant and through conversions.
+func lenDerived(v ssa.Value, depth int) bool {
+	if depth > 6 {
+		return false
+	}
+	switch x := v.(type) {
+	case *ssa.Call:
+		_, ok := lenArg(x)
+		return ok
+	case *ssa.BinOp:
+		if x.Op == token.ADD || x.Op == token.SUB {
+			if _, ok := constInt(x.Y); ok {
+				return lenDerived(x.X, depth+1)
+			}
+			if _, ok := constInt(x.X); ok {
+				return lenDerived(x.Y, depth+1)
+			}
+		}
+	case *ssa.Convert:
+		return lenDerived(x.X, depth+1)
+	}
+	return false
 }
